@@ -104,6 +104,7 @@ pub struct Stats {
 	pub inconclusive: u64,
 	pub callbacks: u64,
 	pub late_error_notice_max: u64,
+	pub resumes_after_gap: u64,
 }
 
 fn known_scene(s: Scene) -> Option<&'static str> {
@@ -287,6 +288,9 @@ pub fn run_case(c: &CaseSpec, stats: &mut Stats, relax_starved_skip: bool) -> Re
 					w
 				};
 				let want = next(p);
+				if gap {
+					stats.resumes_after_gap += 1;
+				}
 				let ok = idx == want || (gap && idx == next(want));
 				if !ok {
 					// how far ahead (along the transport path) did playback resume?
@@ -493,7 +497,7 @@ fn gen_case(r: &mut Rng, exhaustive_k: Option<(Fault, Scene)>) -> CaseSpec {
 }
 
 pub fn run(ctx: &mut Ctx) {
-	let mut stats = Stats { starved_skips: 0, faults_reached: 0, threads_ended: 0, inconclusive: 0, callbacks: 0, late_error_notice_max: 0 };
+	let mut stats = Stats { starved_skips: 0, faults_reached: 0, threads_ended: 0, inconclusive: 0, callbacks: 0, late_error_notice_max: 0, resumes_after_gap: 0 };
 	let mut run_one = |ctx: &mut Ctx, stream: &str, idx: u64, c: CaseSpec, stats: &mut Stats| {
 		if let Some(k) = known_scene(c.scene) {
 			if ctx.known(k) {
@@ -581,6 +585,7 @@ pub fn run(ctx: &mut Ctx) {
 	ctx.count("decoder_threads_observed_ending", stats.threads_ended);
 	ctx.count("callbacks", stats.callbacks);
 	ctx.count("starved_resume_skips_tolerated_as_known_finding", stats.starved_skips);
+	ctx.count("resumes_after_a_gap_of_silence_judged", stats.resumes_after_gap);
 	ctx.maxf("callbacks_until_a_late_error_was_noticed_max", stats.late_error_notice_max as f64);
 	ctx.inconclusive += stats.inconclusive;
 	let _ = J::Null;
@@ -588,7 +593,7 @@ pub fn run(ctx: &mut Ctx) {
 
 fn confirm_scene(scene: Scene, fault: Fault) -> Option<String> {
 	let c = CaseSpec { scene, fault, len: 40000, packet: 512, lp: None, slow_us: 0, stalled: false, chunk: 64, event_after: 2, heavy_main: 0 };
-	let mut stats = Stats { starved_skips: 0, faults_reached: 0, threads_ended: 0, inconclusive: 0, callbacks: 0, late_error_notice_max: 0 };
+	let mut stats = Stats { starved_skips: 0, faults_reached: 0, threads_ended: 0, inconclusive: 0, callbacks: 0, late_error_notice_max: 0, resumes_after_gap: 0 };
 	match super::guarded(|| run_case(&c, &mut stats, false)) {
 		Ok(Ok(())) => None,
 		Ok(Err(e)) => Some(e),
@@ -608,7 +613,7 @@ pub fn confirm(key: &str) -> Option<Option<String>> {
 				// a slow decoder (one frame per ~60 us) and callbacks long enough (reverbs on the main track,
 				// fully dry so the coded frames are unchanged) that frames arrive while a starved chunk is rendered
 				let c = CaseSpec { scene: Scene::Main, fault: Fault::None, len: 3000, packet: 1, lp: None, slow_us: 20, stalled: false, chunk: 1024, event_after: 1000, heavy_main: 6 + (attempt as usize % 3) };
-				let mut stats = Stats { starved_skips: 0, faults_reached: 0, threads_ended: 0, inconclusive: 0, callbacks: 0, late_error_notice_max: 0 };
+				let mut stats = Stats { starved_skips: 0, faults_reached: 0, threads_ended: 0, inconclusive: 0, callbacks: 0, late_error_notice_max: 0, resumes_after_gap: 0 };
 				let r = super::guarded(|| run_case(&c, &mut stats, false));
 				crate::hooks::release_all();
 				if let Ok(Err(e)) = r {
